@@ -50,9 +50,12 @@ def gen_problem(r, max_cells=200, with_zeros=None, nmeas=None):
     for _ in range(k):
         proj = r.sample(attrs, r.randint(1, min(2, n)))
         p = math.prod(sizes[a] for a in proj)
-        kind = r.choice(['identity', 'identity', 'int', 'prefix'])
+        kind = r.choice(['identity', 'identity', 'int', 'prefix', 'diag'])
         if kind == 'identity':
             Q = np.eye(p)
+        elif kind == 'diag':
+            # a weighted identity (what MST's compressed domains measure): diagonal, not the identity
+            Q = np.diag([float(r.choice([0.5, 2.0, 3.0, 4.0])) for _ in range(p)]) if r.random() < 0.5 else float(r.choice([0.25, 2.0, 4.0])) * np.eye(p)
         elif kind == 'int':
             Q = np.array([[r.randint(-1, 2) for _ in range(p)] for _ in range(r.randint(1, p))], dtype=float)
             if not Q.any():
@@ -169,6 +172,34 @@ def to_measurements(meas):
     return [(m['Q'], m['y'], m['noise'], tuple(m['proj'])) for m in meas]
 
 
+SPELLED = {}
+
+
+def spell_measurements(meas):
+    """the same measurements in the spellings a caller may use: dense / csr / csc / coo / dia / LinearOperator query, an omitted query for
+    the identity, an integer-typed array for a query with integer entries; the choice is a function of the measurement's content, so a
+    replay spells it the same way without consuming random numbers"""
+    import hashlib
+    from scipy import sparse
+    from scipy.sparse.linalg import aslinearoperator
+    out = []
+    for m in meas:
+        Q = np.asarray(m['Q'], dtype=float)
+        h = int(hashlib.sha256(Q.tobytes() + repr((m['proj'], m['noise'], Q.shape)).encode()).hexdigest()[:8], 16)
+        forms = ['dense', 'dense', 'csr', 'csc', 'coo', 'dia', 'op']
+        if Q.shape[0] == Q.shape[1] and np.array_equal(Q, np.eye(Q.shape[0])):
+            forms += ['none', 'none']
+        if np.array_equal(Q, np.round(Q)):
+            forms += ['int']
+        f = forms[h % len(forms)]
+        SPELLED[f] = SPELLED.get(f, 0) + 1
+        Qs = {'dense': lambda: Q, 'csr': lambda: sparse.csr_matrix(Q), 'csc': lambda: sparse.csc_matrix(Q), 'coo': lambda: sparse.coo_matrix(Q),
+              'dia': lambda: sparse.dia_matrix(Q), 'op': lambda: aslinearoperator(sparse.csr_matrix(Q)), 'none': lambda: None,
+              'int': lambda: Q.astype(int)}[f]()
+        out.append((Qs, m['y'], m['noise'], tuple(m['proj'])))
+    return out
+
+
 def make_engine(dom, zeros=None, iters=100, warm_start=False, **kw):
     from mbi import Domain, FactoredInference
     d = Domain([a for a, _ in dom], [s for _, s in dom])
@@ -177,7 +208,7 @@ def make_engine(dom, zeros=None, iters=100, warm_start=False, **kw):
 
 def estimate(eng, meas, total, engine):
     with contextlib.redirect_stdout(io.StringIO()), np.errstate(all='ignore'):
-        return eng.estimate(to_measurements(meas), total=total, engine=engine, options={})
+        return eng.estimate(spell_measurements(meas), total=total, engine=engine, options={})
 
 
 def canon_problem(p):
